@@ -1,6 +1,6 @@
 (* Proofs about the primitive/builder model: C17 (validation, totality of the model of Build) and C18. *)
 From Coq Require Import List ZArith Bool Lia.
-From Bfe Require Import lib.Val lib.ValProofs lib.Bytes gen.CondProtos model.CondParse model.CondPrim
+From Bfe Require Import lib.Val lib.ValProofs lib.Bytes gen.CondProtos model.CondParse model.CondPrim model.CondScan
      proofs.CondParseProofs run.RunC16 run.RunC17 run.RunC18.
 Import ListNotations.
 Local Open Scope Z_scope.
@@ -267,26 +267,43 @@ Proof.
     rewrite built_is_reject. destruct (must_reject x nm a); reflexivity.
 Qed.
 
+Lemma composite_01 x ts cs : build_composite x ts cs = 0 \/ build_composite x ts cs = 1.
+Proof. rewrite composite_is_reject. destruct (must_reject_comp x ts cs); [right|left]; reflexivity. Qed.
+Lemma build_text_01 x text : build_text (build_composite x) text = 0 \/ build_text (build_composite x) text = 1.
+Proof.
+  unfold build_text. destruct (lex text) as [rts|]; [|right; reflexivity].
+  destruct (group (S (length rts)) rts 0) as [[ks cs]|]; [|right; reflexivity]. apply composite_01.
+Qed.
+
 (* every observation that agrees with the model of Build satisfies the property predicate *)
 Theorem agree_implies_prop_C17 : forall i o, agree_C17 i o = true -> prop_C17 i o = true.
 Proof.
   intros i o. unfold agree_C17, prop_C17, run_C17.
-  destruct (decode_C17 i) as [[text | x name a | x ts cs]|]; try (intros _; reflexivity).
+  destruct (decode_C17 i) as [[text | x name a | x ts cs | x text]|]; try (intros _; reflexivity).
   - intro H. exact H.
   - intro H. apply val_eqb_eq in H. subst o. rewrite built_is_reject. apply val_eqb_refl.
   - intro H. apply val_eqb_eq in H. subst o. rewrite composite_is_reject. apply val_eqb_refl.
+  - intro H. apply val_eqb_eq in H. subst o. destruct (build_text_01 x text) as [E|E]; rewrite E; reflexivity.
 Qed.
 
-(* the model of Build is total: it answers 0 or 1 on every call / composite *)
+(* central theorem: on every well-formed input (single call, composite, ASCII text) the model satisfies the property *)
+Theorem prop_C17_of_model : forall i, wf_C17 i = true -> kf_C17 i = 0 -> prop_C17 i (run_C17 i) = true.
+Proof.
+  intros i Hw _. apply agree_implies_prop_C17. unfold agree_C17. unfold wf_C17 in Hw. unfold run_C17.
+  destruct (decode_C17 i) as [[text | x name a | x ts cs | x text]|]; try discriminate; apply val_eqb_refl.
+Qed.
+
+(* the model of Build is total: it answers 0 or 1 on every call / composite / ASCII text *)
 Theorem model_total_C17 : forall i, match run_C17 i with
                                     | VZ z => z = 0 \/ z = 1
-                                    | VL [] => True                        (* raw text: left open *)
+                                    | VL [] => True                        (* raw bytes: left open *)
                                     | v => v = VErr 0                       (* not a C17 input *)
                                     end.
 Proof.
-  intros i. unfold run_C17. destruct (decode_C17 i) as [[text | x name a | x ts cs]|]; try exact I; try reflexivity.
+  intros i. unfold run_C17. destruct (decode_C17 i) as [[text | x name a | x ts cs | x text]|]; try exact I; try reflexivity.
   - rewrite built_is_reject. destruct (must_reject x name a); [right|left]; reflexivity.
-  - rewrite composite_is_reject. destruct (must_reject_comp x ts cs); [right|left]; reflexivity.
+  - apply composite_01.
+  - apply build_text_01.
 Qed.
 
 (* ================================================================== C18: fold-case lemmas (ASCII bytes) *)
@@ -871,3 +888,7 @@ Proof.
   destruct (kf1 x name a r) eqn:K1; [discriminate|]. destruct (kf2 name a r) eqn:K2; [discriminate|].
   rewrite (model_meets_doc x name a r c Hb K1 K2). destruct (cond_match x c r); reflexivity.
 Qed.
+
+(* central theorem: the model satisfies the property on every input outside the finding classes *)
+Theorem prop_C18_of_model : forall i, kf_C18 i = 0 -> prop_C18 i (run_C18 i) = true.
+Proof. intros i Hk. apply agree_implies_prop_C18; [apply val_eqb_refl|exact Hk]. Qed.
